@@ -703,7 +703,7 @@ pub fn launcher_k<K: Kind>(args: &[String]) -> i32 {
     }
     // 2b. small-scope sweep (thorough tier)
     let mut sweep_info = serde_json::json!(null);
-    let do_sweep = SWEEP_PROPS.contains(&id.as_str()) && (tier == Tier::Thorough || arg(args, "--sweep").is_some()) && arg(args, "--no-sweep").is_none();
+    let do_sweep = SWEEP_PROPS.contains(&id.as_str()) && (tier == Tier::Thorough || arg(args, "--sweep").is_some()) && !args.iter().any(|a| a == "--no-sweep");
     if do_sweep {
         let limit = arg(args, "--sweep").and_then(|s| s.parse::<u64>().ok()).unwrap_or(u64::MAX);
         let mut kids = vec![];
@@ -771,7 +771,7 @@ pub fn launcher_k<K: Kind>(args: &[String]) -> i32 {
     // to 8k (quick) / 120k (thorough) objects under the same oracles
     let mut big_info = serde_json::json!(null);
     let mut big_failures: Vec<Failure> = vec![];
-    if BIG_PROPS.contains(&id.as_str()) && arg(args, "--no-big").is_none() {
+    if BIG_PROPS.contains(&id.as_str()) && !args.iter().any(|a| a == "--no-big") {
         let big_total: u64 = arg(args, "--big").and_then(|s| s.parse().ok()).unwrap_or(if tier == Tier::Thorough { 8000 } else { 640 });
         let mut kids = vec![];
         for i in 0..nworkers {
